@@ -75,6 +75,14 @@ theorem reclog_refines_ledger (fix : Bool) (t0 : Nat) (ops : List TOp) (h0 : 0 <
     (run fix t0 ops).log = recLog fix ops.reverse :=
   (sim_runR fix t0 ops.reverse h0 hm).log
 
+/-- the verdict the drivers compute for the default chain is the same on both sides: the model reads the gauge of
+the node (0 if the node is about to be created), the spec reads the ledger's gauge -/
+theorem default_verdict_agrees (fix : Bool) (t0 : Nat) (ops : List TOp) (h0 : 0 < t0) (hm : Mono t0 ops)
+    (iso : Option Nat) (hot : Bool) (res : String) (batch : Nat) (args : List String) :
+    defaultRule iso hot ((obsConc (run fix t0 ops) (some res)).getD 0) batch args =
+    defaultRule iso hot ((ledConc fix ops.reverse (some res)).getD 0) batch args := by
+  rw [conc_refines_ledger fix t0 ops h0 hm]
+
 /-! ## (2) corollaries: what the ledger says, hence what the model does
 
 `fix = true ∨ panicFree … k`: the demanded accounting, or the code as it is on every node that no
@@ -226,15 +234,17 @@ theorem panic_pass_gauge_witness :
 /-- the full-strength statement is false of the code as it is -/
 theorem accounting_statement_false : ¬ accounting_statement := by
   intro h
-  have := (h 1000 [(1000, .entry panicEntry), (1000, .exit 1 none)] (by decide) (by simp [Mono, MonoR, lastT]) (some "h") 1000 1000
+  have := (h 1000 [(1000, .entry panicEntry), (1000, .exit 1 none)] (by decide) (show MonoR 1000 [(1000, .exit 1 none), (1000, .entry panicEntry)] from ⟨by decide, by decide, trivial⟩)
+    (some "h") 1000 1000
     (by decide) (by decide)).2
   revert this
   decide
 
 /-! ## non-vacuity: the hypotheses are satisfiable, the region is not everything -/
 
-example : Mono 1000 [(1000, .entry panicEntry), (1500, .trace 1 (some "e")), (1500, .exit 1 none)] := by
-  simp [Mono, MonoR, lastT]
+example : Mono 1000 [(1000, .entry panicEntry), (1500, .trace 1 (some "e")), (1500, .exit 1 none)] :=
+  show MonoR 1000 [(1500, .exit 1 none), (1500, .trace 1 (some "e")), (1000, .entry panicEntry)] from
+    ⟨by decide, by decide, by decide, trivial⟩
 example : panicFree [(1000, Op.entry panicEntry)] none = true := by decide
 example : panicFree [(1000, Op.entry panicEntry)] (some "h") = false := by decide
 example : IsLate [(2, .exit 1 none), (1, .entry panicEntry)] (3, .exit 1 (some "late")) := ⟨_, rfl, rfl⟩
